@@ -262,7 +262,7 @@ def run(s):
     # c = A/(5e^2) + P/(3e) is about gamma = -dln(omega)/dln(V) OF THE FREQUENCIES HANDED OVER WITH IT: the triple-consistency obligations of C11 (every per-method
     # function returns derivative orders 0, 1, 2 of ONE interpolant at the same abscissae) are registered here as well
     from props import C11
-    C11.run(core.SubSession(s, lambda n: n.replace("C11.", "C01.mode_gamma."), lambda n: n.startswith("C11.triple[")))
+    core.SubSession(s, lambda n: n.replace("C11.", "C01.mode_gamma."), lambda n: n.startswith("C11.triple[")).run(C11)
 
     # ---------------- numpy-stub validation against real numpy (engine self-check)
     try:
@@ -283,9 +283,9 @@ def run(s):
     # "sum_i e_i = 1": the strain fractions the anchored classes receive are made by the task factory (tasks.py, outside the anchored files), which normalises the axial
     # strains -- without a lattice block they are (1, 1, 1) and only that division makes them 1/3.  C02's normalisation obligation is registered here as well
     from props import C02
-    C02.run(core.SubSession(s, lambda n: n.replace("C02.", "C01.tasks."), lambda n: n.startswith("C02.strain_fractions_are_normalised")))
+    core.SubSession(s, lambda n: n.replace("C02.", "C01.tasks."), lambda n: n.startswith("C02.strain_fractions_are_normalised")).run(C02)
     from props import C15
-    C15.run(core.SubSession(s, lambda n: n.replace("C15.", "C01.delivery."), lambda n: n in ("C15.registry", "C15.writer_paths")))
+    core.SubSession(s, lambda n: n.replace("C15.", "C01.delivery."), lambda n: n in ("C15.registry", "C15.writer_paths")).run(C15)
     s.min_obligations = 30
 
 
